@@ -1,6 +1,6 @@
 """Render a sliced fragment of a real template with Jinja itself on the real marshalling objects, and dump the values of
 the attribute paths the fragment reads (the model's environment)."""
-import os, sys, json, shutil, tempfile
+import os, sys, json, shutil, tempfile, enum
 from pathlib import Path
 sys.path.insert(0, os.path.dirname(__file__))
 from _util import *
@@ -15,6 +15,35 @@ def find_for(node, attr):
         if r is not None:
             return r
     return None
+
+
+def find_fors(node, attr):
+    out = []
+    for n in node.iter_child_nodes():
+        if isinstance(n, N.For) and isinstance(n.iter, N.Getattr) and isinstance(n.iter.node, N.Name) and n.iter.node.name == 'type_def' and n.iter.attr == attr:
+            out.append(n)
+        else:
+            out += find_fors(n, attr)
+    return out
+
+
+def tests_deriving(e, tag):
+    if isinstance(e, N.Compare) and len(e.ops) == 1 and e.ops[0].op == 'in' and isinstance(e.expr, N.Const) and e.expr.value == tag:
+        t = e.ops[0].expr
+        return isinstance(t, N.Getattr) and isinstance(t.node, N.Name) and t.node.name == 'type_def' and t.attr == 'deriving'
+    if isinstance(e, (N.And, N.Or)):
+        return tests_deriving(e.left, tag) or tests_deriving(e.right, tag)
+    return False
+
+
+def find_ifs(node, tag):
+    out = []
+    for n in node.iter_child_nodes():
+        if isinstance(n, N.If) and tests_deriving(n.test, tag):
+            out.append(n)
+        else:
+            out += find_ifs(n, tag)
+    return out
 
 
 def paths(node, env, out):
@@ -52,10 +81,12 @@ def value(obj, path):
     if not path:
         if isinstance(obj, bool) or obj is None:
             return obj
+        if isinstance(obj, enum.Enum):
+            return obj.value
         if isinstance(obj, int):
             return obj
         if isinstance(obj, (list, tuple, set, frozenset)):
-            return [value(x, []) for x in obj]
+            return [value(x, []) for x in (sorted(obj, key=str) if isinstance(obj, (set, frozenset)) else obj)]
         return str(obj)
     if path[0] == '[]':
         return [value(x, path[1:]) for x in obj]
@@ -113,7 +144,10 @@ def run_case(case, api_cache={}):
             gen = gens[fr['gen']]
             src = gen.template_preprocessing(fr['template'])
             ast = gen._jinja_env.parse(src)
-            f = find_for(ast, fr['attr'])
+            if 'if_tag' in fr:
+                f = find_ifs(ast, fr['if_tag'])[0]
+            else:
+                f = find_fors(ast, fr['attr'])[fr['index']] if 'index' in fr else find_for(ast, fr['attr'])
             res = []
             for d in g.defs:
                 if type(d).__name__ != fr['decl_class']:
@@ -151,7 +185,8 @@ def run_case(case, api_cache={}):
         if isinstance(e, (KeyboardInterrupt, SystemExit)):
             raise
         import traceback
-        return {'outcome': 'error', 'msg': traceback.format_exc()[-1500:]}
+        tb = traceback.format_exc()
+        return {'outcome': 'error', 'msg': '%s: %s\n%s' % (type(e).__name__, str(e)[:300], tb[:1200])}
     finally:
         os.chdir(cwd)
         shutil.rmtree(root, ignore_errors=True)
